@@ -37,6 +37,61 @@ theorem coeff_test_written (s : PState) (h : s.coeffTest ≠ []) : (pserialize s
   | nil => exact absurd hc h
   | cons a t => simp [hc]
 
+/-! ### the field map as generated from `Component.serialize` -/
+
+theorem wr_whenNonEmpty {α : Type} (key : String) (surr : Bool) (l : List α) (h : Gen.serializeRuleOf key = .whenNonEmpty) :
+    wr key surr l = optOfList l := by
+  unfold wr written optOfList; rw [h]; cases l <;> simp
+
+/-- the document written through the dispatch chain GENERATED from `Component.serialize` is the model's document -/
+theorem generated_serialize_is_model (s : PState) : pserializeGen s = pserialize s := by
+  unfold pserializeGen pserialize
+  rw [wr_whenNonEmpty "model_fidelity" _ _ (by decide), wr_whenNonEmpty "data_fidelity" _ _ (by decide),
+    wr_whenNonEmpty "surrogate_fidelity" _ _ (by decide), wr_whenNonEmpty "active_set" _ _ (by decide),
+    wr_whenNonEmpty "candidate_set" _ _ (by decide), wr_whenNonEmpty "misc_costs" _ _ (by decide),
+    wr_whenNonEmpty "misc_coeff_train" _ _ (by decide), wr_whenNonEmpty "misc_coeff_test" _ _ (by decide),
+    wr_whenNonEmpty "misc_states" _ _ (by decide), wr_whenNonEmpty "model_costs" _ _ (by decide)]
+  have ht : Gen.serializeRuleOf "training_data" = .surrogateOnly := by decide
+  simp only [ht, written]
+
+/-- the keys written through the generated chain are the model's keys, for every combination of emptiness flags -/
+theorem generated_keys_are_model (f : CompFlags) : serializeKeysGen f = serializeKeys f := by
+  have h1 : Gen.serializeRuleOf "serializers" = .always := by decide
+  have h2 : Gen.serializeRuleOf "model" = .always := by decide
+  have h3 : Gen.serializeRuleOf "model_kwargs" = .always := by decide
+  have h4 : Gen.serializeRuleOf "inputs" = .always := by decide
+  have h5 : Gen.serializeRuleOf "outputs" = .always := by decide
+  have h6 : Gen.serializeRuleOf "vectorized" = .always := by decide
+  have h7 : Gen.serializeRuleOf "name" = .always := by decide
+  have h8 : Gen.serializeRuleOf "call_unpacked" = .always := by decide
+  have h9 : Gen.serializeRuleOf "ret_unpacked" = .always := by decide
+  have e1 : Gen.serializeRuleOf "model_fidelity" = .whenNonEmpty := by decide
+  have e2 : Gen.serializeRuleOf "data_fidelity" = .whenNonEmpty := by decide
+  have e3 : Gen.serializeRuleOf "surrogate_fidelity" = .whenNonEmpty := by decide
+  have e4 : Gen.serializeRuleOf "active_set" = .whenNonEmpty := by decide
+  have e5 : Gen.serializeRuleOf "candidate_set" = .whenNonEmpty := by decide
+  have e6 : Gen.serializeRuleOf "misc_states" = .whenNonEmpty := by decide
+  have e7 : Gen.serializeRuleOf "misc_costs" = .whenNonEmpty := by decide
+  have e8 : Gen.serializeRuleOf "misc_coeff_train" = .whenNonEmpty := by decide
+  have e9 : Gen.serializeRuleOf "misc_coeff_test" = .whenNonEmpty := by decide
+  have e10 : Gen.serializeRuleOf "model_costs" = .whenNonEmpty := by decide
+  have s1 : Gen.serializeRuleOf "interpolator" = .surrogateOnly := by decide
+  have s2 : Gen.serializeRuleOf "training_data" = .surrogateOnly := by decide
+  unfold serializeKeysGen serializeKeys
+  simp only [h1, h2, h3, h4, h5, h6, h7, h8, h9, e1, e2, e3, e4, e5, e6, e7, e8, e9, e10, s1, s2, written]
+  cases f.surr <;> simp
+
+/-- every learned-state field that may be left out of the document has an empty-container default (generated from the field
+    declarations of `Component`): a missing key is restored as the empty container, which is what `pdeserialize` does -/
+theorem omitted_fields_default_to_empty :
+    ∀ k ∈ ["model_fidelity", "data_fidelity", "surrogate_fidelity", "active_set", "candidate_set", "misc_states", "misc_costs",
+           "misc_coeff_train", "misc_coeff_test", "model_costs"],
+      Gen.serializeRuleOf k = .whenNonEmpty ∧ Gen.fieldDefaultEmpty k = true := by decide
+
+/-- **round trip through the generated document** -/
+theorem generated_roundtrip (s : PState) (h : PWF s) : pdeserialize (pserializeGen s) = s := by
+  rw [generated_serialize_is_model]; exact roundtrip s h
+
 /-! non-vacuity: a trained multi-fidelity component state and a surrogate-less one are well-formed -/
 example : PWF { name := "c", vectorized := true, modelFid := [1], dataFid := [2, 2], surrFid := [],
                 active := [[0, 0, 0]], cand := [[1, 0, 0], [0, 1, 0]], miscCosts := [([0, 0, 0], 1)],
